@@ -207,6 +207,19 @@ def run(tier):
             ck.violation("wrong-value:same-line", "literals on one line print `%s`%s, they denote `%s`" % (out, " (with L1142)" if "1142" in f[0] else "", pexp[cid]), src)
     ck.log("literals sharing a line: %d programs, %d problems" % (len(psrcs), pm))
     ck.log("integers: %d literals %s, %d problems" % (len(cases), dict(stats), mism))
+    long_src = [("ld%d" % i, "fn main() -> u8\n{\n\tvar a: u128 = %s;\n\tprint!(a, \"\\n\");\n\treturn: 0\n}\n" % lit, lit) for i, lit in enumerate(
+        ["1" + "0" * n_ for n_ in (38, 39, 40, 43, 60)] + ["340282366920938463463374607431768211455" + "0" * n_ for n_ in (0, 1, 2)] + ["1_000" * 10, "1_000" * 10 + "_000", "3" + "4" * 39, "34028236692093846346337460743176821145" + "60", "1" * 39, "1" * 40])]
+    limpl = C.run_harness("exec", [(a, b) for a, b, _ in long_src], ck.work + "/longdec", timeout=600)
+    for cid, src, lit in long_src:
+        v_ = int(lit.replace("_", ""))
+        f = limpl.get(cid, ["missing"])
+        if v_ >= (1 << 128):
+            if not (f[0].startswith("err") and "140" in f[0]):
+                mism += 1; ck.violation("e140-missing", "the decimal literal %s (%d digits) exceeds 128 bits but the result is %s %s" % (lit, len(lit.replace("_", "")), f[0], f[1][:80] if len(f) > 1 else ""), src)
+        else:
+            out_ = C.unesc(f[1].split(" out=", 1)[1].split(" stderr=")[0]).decode(errors="replace").strip() if f[0].startswith("ok") and len(f) > 1 and " out=" in f[1] else f[0]
+            if out_ != str(v_):
+                mism += 1; ck.violation("wrong-value", "the decimal literal %s prints %s" % (lit, out_[:80]), src)
     # characters and strings
     ssrcs, sexp = [], {}
     for b in range(256):
